@@ -240,6 +240,77 @@ def run_programs(ctx, nprog, collect_wf=None):
     return lines, impl_tok, meta, spec_lines, spec_meta
 
 
+ALIAS_PRODUCERS = {
+    # name: (function, is the float result a view of its input?, needs)
+    "clone": (lambda t: t.clone(), False, None),
+    "contiguous-clone": (lambda t: t.clone(memory_format=torch.contiguous_format), False, None),
+    "to-copy": (lambda t: t.to(t.device, copy=True), False, None),
+    "detach": (lambda t: t.detach(), True, None),
+    "t": (lambda t: t.t(), True, "2d"),
+    "transpose": (lambda t: t.transpose(0, -1), True, None),
+    "unsqueeze": (lambda t: t.unsqueeze(0), True, None),
+    "view-flat": (lambda t: t.view(-1), True, "per-tensor"),
+    "expand-as-is": (lambda t: t.expand(*t.shape), True, None),
+    "neg": (lambda t: -t, False, None),
+    "relu": (lambda t: torch.relu(t), False, None),
+    "mul-scalar": (lambda t: t * 2, False, None),
+    "cat-with-itself": (lambda t: torch.cat([t, t]), False, None),
+    "stack-with-itself": (lambda t: torch.stack([t, t]), False, None),
+}
+
+
+def aliasing_cases(ctx):
+    """two-step programs with an in-place step: `b = P(a)`, then `a.copy_(c)` (or `b.copy_(c')`), then read the other one.
+    The float program decides what must happen: a view follows its base, anything else is independent of it."""
+    rng = ctx.rng
+    n = 160 if not ctx.thorough else 1600
+    names = sorted(ALIAS_PRODUCERS)
+    for i in range(n):
+        F = rng.choice(["f32", "f16", "bf16"])
+        Q = rng.choice(["qint8", "qint8", "e4m3", "e5m2"])
+        pname = names[i % len(names)]
+        fn, is_view, needs = ALIAS_PRODUCERS[pname]
+        axis = rng.choice([None, None, 0, -1]) if needs != "per-tensor" else None
+        shape = [rng.randrange(2, 5), rng.randrange(2, 5)] if (needs == "2d" or axis is not None) else oc.rand_shape(rng, rng.randrange(1, 4), 4)
+        direction = rng.choice(["into-source", "into-result"])
+        with torch.no_grad():
+            a = oc.make_qb(rng, F, Q, shape, axis=axis)
+            c = oc.make_qb(rng, F, Q, shape, axis=axis, mag=10.0 ** rng.uniform(-2, 2))
+            try:
+                b = fn(a)
+                c2 = fn(c)
+            except Exception:  # noqa  (the per-step checks deal with operations that raise)
+                continue
+            if not oc.is_q(b) or not oc.is_q(c2):
+                ctx.count("aliasing:skipped-float-result")
+                continue
+            a_f = a.dequantize().clone()
+            b_f = fn(a_f)
+            b_before = bits_of(b.dequantize())
+            a_before = bits_of(a.dequantize())
+            try:
+                if direction == "into-source":
+                    a.copy_(c)
+                    a_f.copy_(c.dequantize())
+                    got, other_before, want_view = bits_of(b.dequantize()), b_before, bits_of(b_f)
+                else:
+                    b.copy_(c2)
+                    b_f.copy_(c2.dequantize())
+                    got, other_before, want_view = bits_of(a.dequantize()), a_before, bits_of(a_f)
+            except Exception as e:  # noqa
+                ctx.count("aliasing:copy_-raises:" + exc_name(e))
+                continue
+        ctx.evaluations += 1
+        kind = "view" if is_view else "fresh"
+        ctx.count(f"aliasing:{pname}:{direction}")
+        ctx.nontriv(("aliasing", pname, direction, F, Q, axis, tuple(shape)))
+        want = want_view if is_view else other_before
+        if got != want:
+            ctx.spec_failures.append((f"C05:aliasing:{kind}-result-of-{pname}:{'changes' if not is_view else 'does-not-follow'}",
+                                      {"producer": pname, "direction": direction, "F": F, "qtype": Q, "axis": axis, "shape": shape,
+                                       "note": "an independent tensor changed when another one was written in place" if not is_view else "a view did not follow the in-place write"}))
+
+
 def canon_tok(t):
     """exceptions are compared by class; -0/NaN canonicalisation is already done by enc"""
     return t
@@ -266,7 +337,7 @@ def run(ctx):
     extract.main()
     lean_obligations(ctx)
     ctx.extra["rule"] = ("seeded typed random programs of depth 1-8 over a pool of per-tensor / per-axis QBytes (3 qtypes, equal and different scales), packed QBits, plain tensors and exactly representable Python scalars, "
-                         "dtype float32/float16/bfloat16, ranks 1-4; ops: every entry of the QBytes dispatch table + reshape + 16 pass-through functions. distinct = (op, params, operand kinds, branch, dtype); "
+                         "dtype float32/float16/bfloat16, ranks 1-4; ops: every entry of the QBytes dispatch table + reshape + 16 pass-through functions; two-step aliasing programs (14 producers x in-place copy_ into the source / into the result). distinct = (op, params, operand kinds, branch, dtype); "
                          "non-trivial = all (every step is an intercepted or fallback dispatch)")
     n = 400 if not ctx.thorough else 5000
     lines, impl_tok, meta, spec_lines, spec_meta = run_programs(ctx, n)
@@ -276,6 +347,7 @@ def run(ctx):
     # directed corpus (sequences the random programs do not reach) + S4 witnesses of listed findings
     import witnesses05
     witnesses05.run_directed(ctx)
+    aliasing_cases(ctx)
     replay_known(ctx)
     return finish(ctx, ["torch's dispatcher and CompositeImplicit decompositions are trusted (modelled at the aten level)", "float softmax / float matmul / pass-through functions are oracles supplied by torch on the dequantized operands",
                         "strides are not modelled: validity that depends on strides is taken from the float reference with the same reported strides"])
